@@ -110,8 +110,12 @@ UpdDef == [ annA      |-> U(TRUE, {N("a", 0)}, {}, {}),
             wdA       |-> U(TRUE, {}, {N("a", 0)}, {}),
             wdAannB   |-> U(TRUE, {N("b", 0)}, {N("a", 0)}, {}),
             wdC6      |-> U(TRUE, {}, {N("c6", 0)}, {}),
+            annD6wdC6 |-> U(TRUE, {N("d6", 0)}, {N("c6", 0)}, {}),             \* MP_REACH_NLRI and MP_UNREACH_NLRI in one UPDATE
+            annC6D6   |-> U(TRUE, {N("c6", 0), N("d6", 0)}, {}, {}),
             apA1A2    |-> U(TRUE, {N("a", 1), N("a", 2)}, {}, {}),             \* add-path: two paths of one prefix, own ids
             apA1B2    |-> U(TRUE, {N("a", 1), N("b", 2)}, {}, {}),
+            apA0A1    |-> U(TRUE, {N("a", 0), N("a", 1)}, {}, {}),             \* path identifier 0 is an identifier like any other
+            apWdA0    |-> U(TRUE, {}, {N("a", 0)}, {}),
             apWdA1    |-> U(TRUE, {}, {N("a", 1)}, {}),
             apWdA1A2  |-> U(TRUE, {}, {N("a", 1), N("a", 2)}, {}),             \* two withdrawn NLRI with their own path ids
             apWdA1B2  |-> U(TRUE, {}, {N("a", 1), N("b", 2)}, {}),
